@@ -263,12 +263,46 @@ func AddContext(context interface{}, newContext ssi.URI) []interface{} {
 	return results
 }
 
+// maxCanonicalizationDepth is the maximum nesting (of JSON objects and arrays) of a document that is canonicalized.
+// Nested objects become (blank) nodes, and the time URDNA2015 needs grows faster than quadratically with the length of a
+// chain of blank nodes: without a bound a document of a few kilobytes occupies a CPU for minutes.
+// Credentials and presentations nest about ten levels.
+const maxCanonicalizationDepth = 32
+
+// exceedsDepth returns true if the JSON value is nested deeper than the given number of levels.
+func exceedsDepth(value interface{}, levels int) bool {
+	switch v := value.(type) {
+	case map[string]interface{}:
+		if levels == 0 {
+			return true
+		}
+		for _, member := range v {
+			if exceedsDepth(member, levels-1) {
+				return true
+			}
+		}
+	case []interface{}:
+		if levels == 0 {
+			return true
+		}
+		for _, element := range v {
+			if exceedsDepth(element, levels-1) {
+				return true
+			}
+		}
+	}
+	return false
+}
+
 // Canonicalize canonicalizes the json-ld input according to the URDNA2015 [RDF-DATASET-NORMALIZATION] algorithm.
 func (util LDUtil) Canonicalize(input interface{}) (result interface{}, err error) {
 	var optionsMap map[string]interface{}
 	inputAsJSON, _ := json.Marshal(input)
 	if err := json.Unmarshal(inputAsJSON, &optionsMap); err != nil {
 		return nil, err
+	}
+	if exceedsDepth(optionsMap, maxCanonicalizationDepth) {
+		return nil, fmt.Errorf("unable to normalize the json-ld document: nested deeper than %d levels", maxCanonicalizationDepth)
 	}
 	proc := ld.NewJsonLdProcessor()
 
